@@ -54,5 +54,21 @@ def abor (guards : List Guard) (pos : Pos) : Outcome := aborWith aborCountsFinis
 
 def transferVerbs : List Verb := [.retr, .stor, .appe, .list, .mlsd]
 
+/-- is a worker at `pos` an unfinished task (something `cancel()` acts on)? -/
+def Pos.live : Pos → Bool
+  | .waitData => true
+  | .inBody => true
+  | _ => false
+
+/-- SEVERAL workers in one session (each transfer on a data connection of its own), one ABOR.  As the source has it
+    (`aborCountsFinished = false` is decided only for the shape "collect the workers that are not done; if there
+    are any, `cancel()` each of THAT collection, else 226"), every unfinished worker is cancelled and answers for
+    itself; with none, the single 226. -/
+def aborMany (guards : List Guard) (ps : List Pos) : Outcome :=
+  let live := ps.filter Pos.live
+  if live.isEmpty then
+    (if aborCountsFinished && ps.any (· == .finishedUnreaped) then ⟨[], true⟩ else ⟨[226], true⟩)
+  else ⟨live.flatMap (fun p => (abor guards p).replies), live.all (fun p => (abor guards p).alive)⟩
+
 end Abort
 end Model
